@@ -43,8 +43,8 @@ pub fn run(ctx: &Ctx) {
     ctx.search("wide-templates", ctx.n(10_000, 1_000_000), &move || gen::conformant_case(wide, BuildOpts::STRICT), &oracle);
     // counts on and around 2^8, 2^10, 2^12, 2^14 (records, fields, sets, template definitions)
     ctx.enumerate("boundary-counts", gen::boundary_count_cases(crate::wire::Proto::Ipfix), false, &oracle);
-    // one or two ids redefined over and over (100-300 calls, data after every redefinition)
-    let chain = StreamCfg { ids: (1, 2), max_fields: 4, calls: (100, 300), pkts_per_call: (1, 1), max_sets: 2, max_recs: 2, ..c };
+    // one or two ids redefined over and over (100-900 calls, data after every redefinition; several hundred redefinitions of one id)
+    let chain = StreamCfg { ids: (1, 2), max_fields: 4, calls: (100, 900), pkts_per_call: (1, 1), max_sets: 2, max_recs: 2, ..c };
     ctx.search("redefinition-chain", ctx.n(300, 30_000), &move || gen::conformant_case(chain, BuildOpts::STRICT), &oracle);
     // datagram-sized packets under the full decode oracle: thousands of records per set,
     // thousands of fields per template, hundreds of sets per packet
